@@ -404,6 +404,59 @@ class Rewriter:
                 out.append(T('ident', 'to_str_', t.start))
                 k += 1
                 continue
+            # R11c: native `L + <n>u64` / `L - <n>u64` (panics on overflow under overflow-checks = true) -> partial shim op
+            if t.kind == 'punct' and t.text in ('+', '-') and nxt(k) < n and toks[nxt(k)].kind == 'num' and toks[nxt(k)].text.endswith('u64'):
+                j = len(out) - 1
+                while j >= 0 and out[j].kind in ('ws', 'comment', 'doc'):
+                    j -= 1
+                end_l = j
+                depth = 0
+                while j >= 0:
+                    x = out[j]
+                    if x.kind in ('ws', 'comment', 'doc'):
+                        if depth == 0:
+                            # whitespace inside a chain only directly around '.'
+                            pj = j - 1
+                            while pj >= 0 and out[pj].kind in ('ws', 'comment', 'doc'):
+                                pj -= 1
+                            nj = j + 1
+                            while nj <= end_l and out[nj].kind in ('ws', 'comment', 'doc'):
+                                nj += 1
+                            if not ((pj >= 0 and is_p(out[pj], '.')) or (nj <= end_l and is_p(out[nj], '.'))):
+                                break
+                        j -= 1
+                        continue
+                    if x.kind == 'punct' and x.text in ')]':
+                        depth += 1
+                    elif x.kind == 'punct' and x.text in '([':
+                        if depth == 0:
+                            break
+                        depth -= 1
+                    elif depth == 0 and not (x.kind in ('ident', 'num', 'raw') or (x.kind == 'punct' and x.text in ('.', '::', '?'))):
+                        break
+                    j -= 1
+                start = j + 1
+                while start <= end_l and out[start].kind in ('ws', 'comment', 'doc'):
+                    start += 1
+                # a leading deref `*`
+                pj = start - 1
+                while pj >= 0 and out[pj].kind in ('ws', 'comment', 'doc'):
+                    pj -= 1
+                if pj >= 0 and is_p(out[pj], '*'):
+                    ppj = pj - 1
+                    while ppj >= 0 and out[ppj].kind in ('ws', 'comment', 'doc'):
+                        ppj -= 1
+                    if ppj < 0 or not (out[ppj].kind in ('ident', 'num') or is_p(out[ppj], ')')):
+                        start = pj
+                if start <= end_l:
+                    left = text_of(out[start:end_l + 1])
+                    fn = 'add_u64_' if t.text == '+' else 'sub_u64_'
+                    rep = '%s(%s, %s)' % (fn, left, toks[nxt(k)].text)
+                    self.rec('R11c', '%s %s %s' % (left, t.text, toks[nxt(k)].text), rep)
+                    del out[start:]
+                    out.append(T('raw', rep, t.start))
+                    k = nxt(k) + 1
+                    continue
             # R4-join (expression position): `<postfix chain>.join(sep)` -> Str::opaque()
             if is_id(t, 'join') and prv_out() is not None and is_p(prv_out(), '.') and nxt(k) < n and is_p(toks[nxt(k)], '('):
                 e = match_close(toks, nxt(k))
